@@ -363,20 +363,23 @@ def gen_units(tier):
     import itertools
     us = [{'ctor': 'new_sub_no_ends', 'ops': [], 'pool_lo': 0}, {'ctor': 'new_sub', 'ops': [], 'pool_lo': 0}]
     kinds = ['fetch_ip', 'fetch_net', 'block', 'return']
-    n = 3 if tier == 'quick' else 4
-    for seq in itertools.product(kinds, repeat=n):
-        # a return needs something held before it
+
+    def ok_seq(seq):
         heldc = 0
-        ok = True
         for k in seq:
             if k == 'return':
                 if heldc == 0:
-                    ok = False
-                    break
+                    return False
                 heldc -= 1
             elif k.startswith('fetch'):
                 heldc += 1
-        if ok and any(k.startswith('fetch') for k in seq):
+        return any(k.startswith('fetch') for k in seq)
+    for seq in itertools.product(kinds, repeat=2):
+        if ok_seq(seq):
+            us.append({'ctor': 'new_sub', 'ops': list(seq)})
+    # length 3: quick keeps the sequences with at most one block (each block can split a range in two, which multiplies the paths)
+    for seq in itertools.product(kinds, repeat=3):
+        if ok_seq(seq) and (tier != 'quick' or (seq.count('block') <= 1 and seq.count('fetch_net') <= 1)):
             us.append({'ctor': 'new_sub', 'ops': list(seq)})
     us.append({'ctor': 'new_sub_no_ends', 'ops': ['fetch_ip', 'fetch_ip']})
     return us
